@@ -269,10 +269,15 @@ def collect():
             fname, ft = c.get("name"), field_type(c)
             if not fname:
                 raise Refuse("%s has an anonymous member (union / struct): not handled" % name)
-            ty = parse_type(ft)
-            if ty.ref:
-                raise Refuse("%s::%s is a reference member" % (name, fname))
             r.fields.append((fname, UNNAMED.sub("(unnamed)", ft)))
+            if ft.rstrip().endswith("&"):
+                raise Refuse("%s::%s is a reference member" % (name, fname))
+            try:
+                ty = parse_type(ft)
+            except Refuse:
+                # a spelling this tool cannot parse (function types …): an opaque leaf; the snapshot needs a value
+                # rule for it (harness/c12_snap.h), otherwise the harness does not compile
+                continue
             if "__unnamed__" in [n for n, _ in ty.comps]:
                 # the unnamed record is declared right before the field
                 prev = [p for p in ks[:i] if p.get("kind") == "CXXRecordDecl" and not p.get("name")
@@ -381,6 +386,16 @@ def render(recs, roots):
     L.append("constexpr unsigned N_RECORDS = %d;" % len(order))
     L.append("constexpr unsigned MAX_FIELDS = %d;" % max([1] + [len(recs[n].fields) for n in order]))
     L.append("constexpr const char *TABLE_DIGEST = \"%s\";" % digest.hexdigest()[:16])
+    L.append("inline const char *field_name(unsigned rec, unsigned fld)")
+    L.append("{")
+    L.append("  static const char *const names[N_RECORDS][MAX_FIELDS] = {")
+    for n in order:
+        L.append("    {%s}," % ", ".join('"%s::%s"' % (n, f) for f, _ in recs[n].fields) if recs[n].fields and
+                 not recs[n].value_container else "    {},")
+    L.append("  };")
+    L.append("  const char *r(rec < N_RECORDS && fld < MAX_FIELDS ? names[rec][fld] : nullptr);")
+    L.append("  return r ? r : \"?\";")
+    L.append("}")
     L.append("inline const char *root_type(const std::string &tag)")
     L.append("{")
     for tag, n in roots.items():
